@@ -5,12 +5,12 @@ namespace sim {
 ResolverModel* g_resolver = nullptr;
 
 void start_resolve(const asio::any_io_executor& ex, std::string host, std::string port,
-                   asio::any_completion_handler<void(error_code, resolver_results)> h)
+                   asio::any_completion_handler<void(error_code, resolver_results)> h, int inst)
 {
     // no cancellation: like the real resolver, the operation always runs to completion
     auto op = Pending<void(error_code, resolver_results)>::make(std::move(h), ex);
     ResolveRec rec;
-    rec.seq = g_world->next_seq(); rec.t = g_world->now; rec.host = host; rec.port = port;
+    rec.seq = g_world->next_seq(); rec.t = g_world->now; rec.host = host; rec.port = port; rec.inst = inst;
     int nth = (int)g_resolver->log.size();
     rec.decision = g_resolver->policy ? g_resolver->policy(host, port, nth) : ResolveDecision{};
     g_world->trs("resolve_start", host + ":" + port, nth);
